@@ -267,6 +267,31 @@ class Composite:
         return Struct(self.params, self.bytesize)
 
 
+@dataclass
+class Service:
+    """a DIAG-SERVICE: request / responses are referenced by the *name* of a composite of the layer (so that one
+    response can be shared by several services, and the JSON form keeps the sharing)"""
+    name: str
+    request: str
+    pos: List[str] = field(default_factory=list)
+    neg: List[str] = field(default_factory=list)
+
+
+@dataclass
+class Layer:
+    """one diagnostic layer: composites (unique names), services over them, global negative responses (by name)"""
+    composites: List[Composite]
+    services: List[Service]
+    gneg: List[str] = field(default_factory=list)
+
+    def comp(self, name) -> Composite:
+        return next(c for c in self.composites if c.name == name)
+
+    def users(self, name) -> List[str]:
+        """services that reference the composite"""
+        return [s.name for s in self.services if name == s.request or name in s.pos or name in s.neg]
+
+
 def u8(bitlen=8, **kw) -> SimpleDop:
     """convenience: unsigned identical DOP"""
     return SimpleDop(Std("A_UINT32", bitlen, **kw), "A_UINT32", Identical())
